@@ -1,10 +1,39 @@
 (** C11: variable ordering changes the shape of the answer, never its meaning. *)
+From Coq Require Import List NArith.
 From Rsbdd Require Import Core.Bdd Lang.Ast Lang.Eval Lang.Free Lang.Rename.
+From Rsbdd Require Import Syntax.Lexer Syntax.Tokenize Cli.Pipeline Cli.Ordering.
+
+(** over texts: the same formula text evaluated under ANY two orderings with pairwise distinct ids
+    (permutation, subset, superset with unused names anywhere, names the text never mentions) yields two
+    diagrams that denote the same function of the NAMED variables: for every valuation sigma of names,
+    reading each diagram's variable i as sigma (its name in that run's id table) gives the same value.
+    Proof: the tokens of a text are a function of the final id table (classify_render), so two runs
+    differ by an id renaming that respects names (render_rename); the grammar is closed under such
+    renamings (grammar_rename) and the parser is the grammar (C08), so the trees are renamings of one
+    another; C11_meaning then transfers the denotation. *)
+Theorem C11_text uc o1 o2 txt p1 p2 n1 n2 b1 b2 :
+  NoDup (map snd o1) -> NoDup (map snd o2) ->
+  parsed_formula uc o1 txt = Done p1 -> parsed_formula uc o2 txt = Done p2 ->
+  eval_f n1 (pf_form p1) = Some b1 -> eval_f n2 (pf_form p2) = Some b2 ->
+  forall sigma : name -> bool,
+    beval (fun i => sigma (name_of (name_table uc o1 txt) i)) b1 =
+    beval (fun i => sigma (name_of (name_table uc o2 txt) i)) b2.
+Proof. exact (Ordering.C11_text uc o1 o2 txt p1 p2 n1 n2 b1 b2). Qed.
+
+(** the orderings the binary reads from a file (ids 0, 1, ... by first appearance) qualify *)
+Theorem C11_file_orderings uc t o : ordering_of_file uc t = Done o -> NoDup (map snd o).
+Proof. exact (ordering_of_file_distinct uc t o). Qed.
+
 Theorem C11_meaning (p q : nat -> nat) : (forall x, q (p x) = x) -> forall n m f b1 b2, nofsub f ->
   eval_f n f = Some b1 -> eval_f m (rename p f) = Some b2 -> forall s, beval s b2 = beval (fun x => s (p x)) b1.
 Proof. intros Hq n m f b1 b2. exact (C11_rename p q Hq n m f b1 b2). Qed.
-Print Assumptions C11_meaning.
 
 (** the hypothesis is satisfiable: swapping the ids 0 and 1 is its own inverse *)
 Example C11_instance : let p := fun x => match x with 0 => 1 | 1 => 0 | n => n end in forall x, p (p x) = x.
 Proof. intros p [|[|n]]; reflexivity. Qed.
+(** "b & -a" under the orderings [] and [a:5]: different diagrams, the same function of the names a, b *)
+Example C11_two_orderings :
+  let txt := (98 :: 32 :: 38 :: 32 :: 45 :: 97 :: nil)%N in let a := (97 :: nil)%N in
+  exists p1 p2 b1 b2, parsed_formula (fun _ => UOther) nil txt = Done p1 /\ parsed_formula (fun _ => UOther) ((a, 5) :: nil) txt = Done p2 /\
+    eval_f 20 (pf_form p1) = Some b1 /\ eval_f 20 (pf_form p2) = Some b2 /\ b1 = Nd (Nd F 1 T) 0 F /\ b2 = Nd F 5 (Nd T 6 F).
+Proof. do 4 eexists. repeat split; vm_compute; reflexivity. Qed.
